@@ -127,7 +127,7 @@ def impl_call(case):
     try:
         bp = O.eval_expr(case['expr'])
     except Exception as e:  # noqa
-        return {'ok': {m: {'err': core.exc_name(e)} for m in METHODS}, '_build_err': core.exc_name(e)}
+        return finish(case, {'ok': {m: {'err': core.exc_name(e)} for m in METHODS}, '_build_err': core.exc_name(e)})
     area_v = O.fl(case['area'])
     area = area_v * u.m ** 2 if case['area_unit'] == 'm2' else (area_v * u.cm ** 2 if case.get('area_as_quantity') else area_v)
     area_cm2 = area_v * 1e4 if case['area_unit'] == 'm2' else area_v
@@ -158,7 +158,39 @@ def impl_call(case):
             wu = wave_arg(case, 'unit')
             out['_unit'] = call_all(bp, wu, thr, area)
             out['_unit_x'] = guarded(lambda: bp._validate_wavelengths(wu).value)
-    return out
+    return finish(case, out)
+
+
+class Collector:
+    """stands in for the Report inside a worker process"""
+
+    def __init__(self):
+        self.fails, self.dist = [], {}
+
+    def oracle_fail(self, sig, msg, case, impl=None):
+        self.fails.append((sig, msg))
+
+    def bump(self, key):
+        self.dist[key] = self.dist.get(key, 0) + 1
+
+
+def finish(case, out):
+    """evaluate the property oracle where the outcome was produced (worker process) and keep only what the parent
+    needs: the method outcomes, the verdicts and the sample count"""
+    col = Collector()
+    oracle(col, case, out)
+    keep = {'ok': out['ok'], '_oracle': col.fails, '_dist': col.dist, '_n': len(out.get('_x', ())),
+            '_tl_spread': out.get('_tl_spread', 0.0)}
+    if '_build_err' in out:
+        keep['_build_err'] = out['_build_err']
+    return keep
+
+
+def oracle_parent(rep, case, out):
+    for sig, msg in out.get('_oracle', ()):
+        rep.oracle_fail(sig, msg, case, out['ok'])
+    for k, v in out.get('_dist', {}).items():
+        rep.dist[k] += v
 
 
 def model_case(case):
@@ -193,8 +225,8 @@ def compare(case, o, m):
             elif mm['thr_margin'] is not None and unq(mm['thr_margin']) <= F(1, 10 ** 11) * abs(unq(case['threshold'])):
                 continue
         if meth == 'wpeak' and 'ok' in a and 'ok' in b:
-            if q(a['ok']) != b['ok'] and q(a['ok']) in mm['wpeak_ties']:
-                continue        # several samples within 1e-12 of the peak: binary64 picks another first match
+            if q(a['ok']) != b['ok'] and q(a['ok']) in mm['wpeak_ties'] and not is_exact_table(case):
+                continue        # several (rounded) samples within 1e-12 of the peak: binary64 picks another first match
         atol = 1e-11 * scale if meth in WIDTHS else 0.0
         rtol = 1e-9
         if meth in ('tlambda', 'emflx') and mm.get('tl_spread') is not None:
@@ -332,7 +364,7 @@ def oracle(rep, case, out):
             ux = out.get('_unit_x', {})
             if 'ok' not in ux or list(ux['ok']) != list(x):
                 # the harness converted the grid differently from the implementation: nothing to compare
-                rep.dist['unit_grid_differs'] += 1
+                rep.bump('unit_grid_differs')
                 continue
         for meth in METHODS:
             if meth == 'wpeak' and not uniq:
@@ -600,7 +632,7 @@ def tags(c, o):
         g = [unq(v) for v in c['grid']]
         t.append('grid:explicit:%s:%s' % ((c.get('grid_unit') or {}).get('unit', 'angstrom'),
                                           'desc' if len(g) > 1 and g[-1] < g[0] else 'asc'))
-    n = len(o.get('_x', []))
+    n = o.get('_n', 0)
     t.append('n:%s' % ('0-1' if n < 2 else '2-4' if n < 5 else '5-12' if n < 13 else '13-50' if n < 51 else '51+'))
     t.append('threshold:%s' % ('none' if c['threshold'] is None else 'quantity' if c.get('threshold_as_quantity') else 'number'))
     t.append('area:%s' % c['area_unit'])
@@ -632,30 +664,48 @@ def budget(rep):
     return (100000, 200, 200) if thorough else (3000, 12, 12)
 
 
+GEN_CHUNK = 500
+
+
+def gen_chunk(args):
+    """cases i*GEN_CHUNK .. of the run: every chunk has its own random stream derived from (seed, chunk index)"""
+    seed, tier, i, count = args
+    rep = core.Report('C11', tier, seed)
+    rng = rep.rng('c11/%d' % i)
+    K = O.consts()
+    thorough = tier == 'thorough'
+    _, nmax_t, nmax_g = budget(rep)
+    out = []
+    for _ in range(count):
+        # most tables stay small; the long ones exercise the sums
+        big = (not thorough) or rng.random() < 0.1
+        out.append(gen_case(rng, K, nmax_t if big else 16, nmax_g if big else 24, sparse=thorough))
+    return out
+
+
 def run(rep):
     ncase, nmax_t, nmax_g = budget(rep)
-    rng = rep.rng('c11')
     K = O.consts()
     cases = core.load_corpus('C11')
     for c in cases:
         c['const'] = K
     cases += fixed_cases(K)
-    thorough = rep.tier == 'thorough'
-    for i in range(ncase):
-        # most tables stay small; the long ones exercise the sums
-        big = thorough and rng.random() < 0.25
-        cases.append(gen_case(rng, K, nmax_t if (big or not thorough) else 16, nmax_g if (big or not thorough) else 24,
-                              sparse=thorough))
+    chunks = [(rep.seed, rep.tier, i, min(GEN_CHUNK, ncase - i * GEN_CHUNK)) for i in range((ncase + GEN_CHUNK - 1) // GEN_CHUNK)]
+    for ch in core.pmap(gen_chunk, chunks, chunksize=1):
+        cases += ch
     rep.rule = ('non-negative bandpasses: tables of 2..%d points with arbitrary dyadic spacing (gaps over four decades, zeros, flat tops, '
                 'ascending or descending, a few below/at 1 Angstrom and a few with negative values for the division-free methods), boxes with '
                 'a coarse step, Gaussians, products of two, each optionally times a number; sampled on the default waveset or on explicit grids '
                 'of 0..%d dyadic points (ascending/descending; Angstrom arrays or Quantities; nm, micron, Hz) x threshold (none, exactly a sampled '
                 'value, off-lattice; number or Quantity) x area (cm2 number, cm2/m2 Quantity, 1e-2..1e6) x scale factor k (2^-20..2^20, 1e-6..1e6). '
-                'All 14 methods per case. Non-trivial: the average wavelength is defined and non-zero.' % (nmax_t, nmax_g))
+                'All 14 methods per case (17 calls: the three width methods with and without threshold)%s. '
+                'Non-trivial: the average wavelength is defined and non-zero.' % (
+                    nmax_t, nmax_g, '; thorough tier: 10 %% of the cases use the long tables/grids, and each companion evaluation '
+                    '(bp*k, reversed grid, other unit) is made for a third of the cases' if rep.tier == 'thorough' else ''))
     # in chunks, to bound memory in the thorough tier
     step = 20000
     for i in range(0, len(cases), step):
-        core.run_cases(rep, cases[i:i + step], impl_call, model_case, oracle, tags_fn=tags, nontrivial_fn=nontrivial,
+        core.run_cases(rep, cases[i:i + step], impl_call, model_case, oracle_parent, tags_fn=tags, nontrivial_fn=nontrivial,
                        compare_fn=compare)
     rep.samples = [s if not isinstance(s, dict) else {k: v for k, v in s.items() if k != 'const'} for s in rep.samples]
 
@@ -676,7 +726,7 @@ def search(rep, mismatches):
     cases += [gen_case(rng, K, 12, 12) for _ in range(6000)]
     impl = core.pmap(impl_call, cases)
     for c, o in zip(cases, impl):
-        oracle(sub, c, o)
+        oracle_parent(sub, c, o)
     rep.notes.append('directed search after mismatch: %d cases, %d oracle failures' % (len(cases), len(sub.oracle_failures)))
     return sub.oracle_failures
 
@@ -684,4 +734,4 @@ def search(rep, mismatches):
 def replay(rep, payload):
     c = payload['case']
     c['const'] = O.consts()
-    core.run_cases(rep, [c], impl_call, model_case, oracle, compare_fn=compare)
+    core.run_cases(rep, [c], impl_call, model_case, oracle_parent, compare_fn=compare)
